@@ -204,8 +204,8 @@ static json call(const json& q) {
 	else if (fn == "C_SetOperationState") { InBuf d; d.make(q.value("data", json())); rv = P->C_SetOperationState(S(q, "s"), d.p, d.len, q.value("k1", (uint64_t)0), q.value("k2", (uint64_t)0)); }
 	else if (fn == "C_Login") { InBuf pin; pin.make(q.value("pin", json())); rv = P->C_Login(S(q, "s"), S(q, "user"), pin.p, pin.len); }
 	else if (fn == "C_Logout") rv = P->C_Logout(S(q, "s"));
-	else if (fn == "C_CreateObject") { Tmpl t; t.build(q.value("tmpl", json::array())); CK_OBJECT_HANDLE h = 0; rv = P->C_CreateObject(S(q, "s"), t.ptr(), t.count(), q.value("null", false) ? nullptr : &h); r["h"] = (uint64_t)h; }
-	else if (fn == "C_CopyObject") { Tmpl t; t.build(q.value("tmpl", json::array())); CK_OBJECT_HANDLE h = 0; rv = P->C_CopyObject(S(q, "s"), S(q, "o"), t.ptr(), t.count(), q.value("null", false) ? nullptr : &h); r["h"] = (uint64_t)h; }
+	else if (fn == "C_CreateObject") { Tmpl t; t.build(q.value("tmpl", json::array())); CK_OBJECT_HANDLE h = q.value("preset", (uint64_t)0); rv = P->C_CreateObject(S(q, "s"), t.ptr(), t.count(), q.value("null", false) ? nullptr : &h); r["h"] = (uint64_t)h; }
+	else if (fn == "C_CopyObject") { Tmpl t; t.build(q.value("tmpl", json::array())); CK_OBJECT_HANDLE h = q.value("preset", (uint64_t)0); rv = P->C_CopyObject(S(q, "s"), S(q, "o"), t.ptr(), t.count(), q.value("null", false) ? nullptr : &h); r["h"] = (uint64_t)h; }
 	else if (fn == "C_DestroyObject") rv = P->C_DestroyObject(S(q, "s"), S(q, "o"));
 	else if (fn == "C_GetObjectSize") { CK_ULONG n = 0; rv = P->C_GetObjectSize(S(q, "s"), S(q, "o"), q.value("null", false) ? nullptr : &n); r["size"] = (uint64_t)n; }
 	else if (fn == "C_GetAttributeValue") { Tmpl t; t.build(q.value("tmpl", json::array())); rv = P->C_GetAttributeValue(S(q, "s"), S(q, "o"), t.ptr(), t.count()); if (!t.isnull) r["tmpl"] = t.report_outputs(q["tmpl"]); }
@@ -251,11 +251,11 @@ static json call(const json& q) {
 	else if (fn == "C_DigestKey") rv = P->C_DigestKey(S(q, "s"), S(q, "key"));
 	else if (fn == "C_Verify") { InBuf d, g; d.make(q.value("data", json())); g.make(q.value("sig", json())); rv = P->C_Verify(S(q, "s"), d.p, d.len, g.p, g.len); }
 	else if (fn == "C_VerifyFinal") { InBuf g; g.make(q.value("sig", json())); rv = P->C_VerifyFinal(S(q, "s"), g.p, g.len); }
-	else if (fn == "C_GenerateKey") { Mech m; m.build(q.value("mech", json())); Tmpl t; t.build(q.value("tmpl", json::array())); CK_OBJECT_HANDLE h = 0; rv = P->C_GenerateKey(S(q, "s"), m.ptr(), t.ptr(), t.count(), q.value("null", false) ? nullptr : &h); r["h"] = (uint64_t)h; }
-	else if (fn == "C_GenerateKeyPair") { Mech m; m.build(q.value("mech", json())); Tmpl a, b; a.build(q.value("pub", json::array())); b.build(q.value("priv", json::array())); CK_OBJECT_HANDLE h1 = 0, h2 = 0; rv = P->C_GenerateKeyPair(S(q, "s"), m.ptr(), a.ptr(), a.count(), b.ptr(), b.count(), &h1, &h2); r["hpub"] = (uint64_t)h1; r["hpriv"] = (uint64_t)h2; }
+	else if (fn == "C_GenerateKey") { Mech m; m.build(q.value("mech", json())); Tmpl t; t.build(q.value("tmpl", json::array())); CK_OBJECT_HANDLE h = q.value("preset", (uint64_t)0); rv = P->C_GenerateKey(S(q, "s"), m.ptr(), t.ptr(), t.count(), q.value("null", false) ? nullptr : &h); r["h"] = (uint64_t)h; }
+	else if (fn == "C_GenerateKeyPair") { Mech m; m.build(q.value("mech", json())); Tmpl a, b; a.build(q.value("pub", json::array())); b.build(q.value("priv", json::array())); CK_OBJECT_HANDLE h1 = q.value("preset", (uint64_t)0), h2 = q.value("preset2", (uint64_t)0); rv = P->C_GenerateKeyPair(S(q, "s"), m.ptr(), a.ptr(), a.count(), b.ptr(), b.count(), &h1, &h2); r["hpub"] = (uint64_t)h1; r["hpriv"] = (uint64_t)h2; }
 	else if (fn == "C_WrapKey") { Mech m; m.build(q.value("mech", json())); OutBuf b; b.make(q.value("buf", json())); CK_ULONG n = b.cap; rv = P->C_WrapKey(S(q, "s"), m.ptr(), S(q, "wkey"), S(q, "key"), b.p, q.value("len_null", false) ? nullptr : &n); out1("out", b, n); }
-	else if (fn == "C_UnwrapKey") { Mech m; m.build(q.value("mech", json())); InBuf w; w.make(q.value("wrapped", json())); Tmpl t; t.build(q.value("tmpl", json::array())); CK_OBJECT_HANDLE h = 0; rv = P->C_UnwrapKey(S(q, "s"), m.ptr(), S(q, "ukey"), w.p, w.len, t.ptr(), t.count(), q.value("null", false) ? nullptr : &h); r["h"] = (uint64_t)h; }
-	else if (fn == "C_DeriveKey") { Mech m; m.build(q.value("mech", json())); Tmpl t; t.build(q.value("tmpl", json::array())); CK_OBJECT_HANDLE h = 0; rv = P->C_DeriveKey(S(q, "s"), m.ptr(), S(q, "key"), t.ptr(), t.count(), q.value("null", false) ? nullptr : &h); r["h"] = (uint64_t)h; }
+	else if (fn == "C_UnwrapKey") { Mech m; m.build(q.value("mech", json())); InBuf w; w.make(q.value("wrapped", json())); Tmpl t; t.build(q.value("tmpl", json::array())); CK_OBJECT_HANDLE h = q.value("preset", (uint64_t)0); rv = P->C_UnwrapKey(S(q, "s"), m.ptr(), S(q, "ukey"), w.p, w.len, t.ptr(), t.count(), q.value("null", false) ? nullptr : &h); r["h"] = (uint64_t)h; }
+	else if (fn == "C_DeriveKey") { Mech m; m.build(q.value("mech", json())); Tmpl t; t.build(q.value("tmpl", json::array())); CK_OBJECT_HANDLE h = q.value("preset", (uint64_t)0); rv = P->C_DeriveKey(S(q, "s"), m.ptr(), S(q, "key"), t.ptr(), t.count(), q.value("null", false) ? nullptr : &h); r["h"] = (uint64_t)h; }
 	else if (fn == "C_GenerateRandom") { OutBuf b; b.make(q.value("buf", json())); rv = P->C_GenerateRandom(S(q, "s"), b.p, q.contains("announce") ? std::min<uint64_t>(q["announce"].get<uint64_t>(), b.cap) : b.cap); r["out"] = b.report(b.cap, false); }
 	else if (fn == "C_GetFunctionStatus") rv = P->C_GetFunctionStatus(S(q, "s"));
 	else if (fn == "C_CancelFunction") rv = P->C_CancelFunction(S(q, "s"));
